@@ -5,23 +5,27 @@ import hpa
 
 META = {
     'level': 'other',
+    'technique': 'panic-site census, typestate argument for the row cursor, result-buffer provenance, interval abstract interpretation and relational '
+                 'invariant inference (polynomial facts, Houdini joins, Farkas/simplex entailment), loop-guard cycle rule over rustc MIR',
     'explanation': 'Static analysis of BitmapEvent::decompress and codec::rle on the MIR of the current tree. (R08.1) no explicit panic, '
                    'assert or expect is reachable, and every unwrap() is the decoder\'s `line` typestate idiom whose initialisation is '
                    'established structurally (x starts at width, the row switch that assigns Some(..) dominates every use); (R08.2) every Ok '
                    'value of decompress is, by provenance, a buffer created as vec![0; width*height*4], the event data guarded by '
                    'len == width*height*4, or the result of rgb565torgb32 which returns such a buffer; (R08.3) every overflow / division / '
-                   'slicing site outside the pixel run loops (decompress, rle_32_decompress, rgb565torgb32 arithmetic, run counters, column '
-                   'counters) is discharged by the interval analysis for all u16 dimensions; (R08.4) every allocation has size width*height*{1,2,4} '
-                   'elements and there is no unsafe code; (R08.5) every loop that writes pixels is bounded by a comparison of its column counter '
-                   'with the width, and over-long planar runs are refused. NOT decided: that the indices computed inside the run loops '
-                   '(line + x, prevline + x, out) stay inside the buffers - this needs relational invariants.',
-    'assumptions': ['index bounds inside the RLE run loops are not decided (Rust bounds checks turn a violation into a panic, not into memory unsafety)',
-                    'byteorder read_* fail cleanly at end of input'],
-    'trusted_base': ['rustc nightly MIR construction', 'mirfacts exporter', 'rules/c08.py, hpa.py, hpa_report.py, sym.py, facts.py'],
+                   'bounds / slicing site of decompress, rgb565torgb32, rle_32_decompress and process_plane is discharged for all u16 dimensions and all '
+                   'data, either by the interval analysis or by an inductive relational invariant inferred on the MIR (exact polynomial values, '
+                   'polynomial inequalities kept at a join only if every incoming edge entails them, callee preconditions = join over all call sites); '
+                   'in rle_16_decompress the arithmetic outside the run loops is discharged in the quick tier and the index / counter sites inside the '
+                   'run loops in the thorough tier; (R08.4) every allocation has size width*height*{1,2,4} elements and there is no unsafe code; '
+                   '(R08.5) every CFG cycle through a pixel store passes a comparison of the column counter with the width.',
+    'assumptions': ['in-crate call sites are the only callers of the pub codec helpers (rle_16_decompress relies on its caller for output.len() >= width*height)',
+                    'byteorder read_* fail cleanly at end of input', 'a slice is never longer than isize::MAX'],
+    'trusted_base': ['rustc nightly MIR construction', 'mirfacts exporter', 'rules/c08.py, relinv.py, hpa.py, hpa_report.py, poly.py, sym.py, facts.py'],
 }
 
 DECOMPRESS = 'core::event::BitmapEvent::decompress'
 FUNCS = [DECOMPRESS, 'codec::rle::rle_32_decompress', 'codec::rle::rle_16_decompress', 'codec::rle::process_plane', 'codec::rle::rgb565torgb32']
+REL16 = bool(__import__('os').environ.get('VERIF_C08_REL16'))
 RUN_LOOP_FUNCS = ['codec::rle::rle_16_decompress', 'codec::rle::process_plane']
 
 
@@ -79,30 +83,44 @@ def run(ctx):
                   '%s unwraps %s: not the established `line` typestate idiom - a None here is a panic on hostile data' % (P.key_of(b), sorted(names) or s.desc))
     ctx.floor('R08.1', 'unwrap sites in the decoder (macro-expanded line.unwrap())', n_u, 40)
 
-    # ---- R08.3 interval-decidable sites --------------------------------------------------------------------------------
+    # ---- R08.3 every arithmetic / index / slicing site: interval engine or relational engine ----------------------------------------
+    import relinv
+    rel_order = [DECOMPRESS, 'codec::rle::rgb565torgb32', 'codec::rle::rle_32_decompress', 'codec::rle::process_plane']
+    if ctx.tier == 'thorough' or REL16:
+        rel_order.append('codec::rle::rle_16_decompress')
+    rel = relinv.analyse_program(P, rel_order)
+    rel_by_block = {}
+    for k_, an in rel.items():
+        ctx.check(an.stable, 'R08.3', 'rel:stable:%s' % k_.rsplit('::', 1)[-1], 'relational analysis of %s reached a fixpoint (%d block visits)' % (k_.rsplit('::', 1)[-1], an.block_visits),
+                  P.bodies[k_].where(), 'relational analysis of %s did not stabilise: its verdicts are not used' % k_)
+        for rs in an.sites.values():
+            cur = rel_by_block.get((k_, rs.block))
+            rel_by_block[(k_, rs.block)] = bool(rs.ok) if cur is None else (cur and bool(rs.ok))
     undecided = 0
-    n3 = 0
+    n3 = n_rel = 0
     for s in sites:
         fn = P.key_of(s.body)
         if s.kind in ('panic', 'unwrap'):
             continue
-        in_run_loop = fn in RUN_LOOP_FUNCS and s.kind in ('bounds', 'sliceindex')
-        relational_add = fn in RUN_LOOP_FUNCS and s.kind == 'overflow' and s.sig.startswith('Overflow(Add,_,') and not s.sig.endswith('const 8)') \
-            and not s.sig.endswith('const 1)') and not s.sig.endswith('const 4)')
+        r_ok = rel_by_block.get((fn, s.block)) if s.kind in ('overflow', 'bounds', 'sliceindex', 'div0', 'rem0') else None
         if s.verdict == 'discharged':
             n3 += 1
             ctx.ok('R08.3:' + (s.rule or ''), '%s %s: %s' % (fn, s.desc, s.detail), s.where())
-        elif in_run_loop or relational_add or (fn in (DECOMPRESS, 'codec::rle::rgb565torgb32') and s.kind in ('bounds', 'sliceindex')):
-            undecided += 1        # index arithmetic of the run loops: documented as not decided
-        elif fn == 'codec::rle::process_plane' and s.kind == 'overflow':
-            undecided += 1        # u32 offset arithmetic of the planar decoder (needs the width*height*4 <= u32::MAX relation)
-        elif fn == 'codec::rle::rle_16_decompress' and s.kind == 'overflow' and re.search(r'Overflow\((Sub|Add),count,const 1\)', s.sig):
-            undecided += 1        # run counter of the bicolour order (count += 1 / -= 1 pairs)
+        elif r_ok:
+            n3 += 1
+            n_rel += 1
+            ctx.ok('R08.3:D-rel', '%s %s: implied by the inductive relational invariant at this point' % (fn, s.desc), s.where())
+        elif fn not in rel and fn in RUN_LOOP_FUNCS and (s.kind in ('bounds', 'sliceindex') or s.kind == 'overflow'):
+            undecided += 1        # rle_16_decompress in the quick tier: index arithmetic of the run loops is decided in the thorough tier only
         else:
-            ctx.fail('R08.3', '%s|%s' % (fn, s.sig), '%s: %s is not discharged for all u16 dimensions / data: %s' % (fn, s.desc, s.detail), s.where())
-    ctx.floor('R08.3', 'arithmetic / slicing / loop sites discharged by the interval analysis', n3, 250)
+            ctx.fail('R08.3', '%s|%s' % (fn, s.sig), '%s: %s is not discharged for all u16 dimensions / data (intervals: %s; relational invariant: not implied)'
+                     % (fn, s.desc, s.detail), s.where())
+    ctx.floor('R08.3', 'arithmetic / slicing / loop sites discharged', n3, 250)
+    ctx.floor('R08.3', 'sites that need the relational invariant', n_rel, 20)
     ctx.extra['undecided_run_loop_sites'] = undecided
-    ctx.note('%d index / offset sites inside the run loops are not decided (see DESIGN.md C08 "not decided")' % undecided)
+    ctx.extra['relational'] = {k_: {'block_visits': an.block_visits, 'sites': len(an.sites), 'entry_facts': [relinv.pshow(f) for f in an.entry_facts][:12]} for k_, an in rel.items()}
+    if undecided:
+        ctx.note('%d index / counter sites of rle_16_decompress are decided in the thorough tier only' % undecided)
 
     # ---- R08.2 / R08.4 provenance of the result and of allocations -----------------------------------------------------------
     dc = ctx.body(DECOMPRESS)
